@@ -241,7 +241,7 @@ theorem good_func (useHex : Int → Bool) (fn : Func) (h : wfSyn fn = true) (hmd
     have hrest := hT f' (by simp only [List.length_append, List.length_cons, List.length_nil] at hf; omega)
     obtain ⟨tl, hd⟩ : ∃ tl, declString fn = 100 :: tl := ⟨_, by simp [declString, Core3.sDeclare]; rfl⟩
     have hs : (stripPrefix Core3.sDeclare (declString fn)).isSome = true := by
-      have e : declString fn = Core3.sDeclare ++ (flagsString kLead fn.lead ++ tyString fn.ret ++ [32] ++ Enc.globalName fn.name ++ [40] ++ paramsString (zipA fn.params fn.pattrs) ++ [41] ++ tailDecl (itemsOf fn.tail)) := by
+      have e : declString fn = Core3.sDeclare ++ (flagsString kLead fn.lead ++ tyString fn.ret ++ [32] ++ Enc.globalName fn.name ++ [40] ++ paramsString (zipA fn.params fn.pattrs) ++ varString fn.params.isEmpty fn.variadic ++ [41] ++ tailDecl (itemsOf fn.tail)) := by
         simp [declString]
       rw [e, stripPrefix, TyParse.stripPrefix_append]; rfl
     simp only [List.singleton_append]
